@@ -312,9 +312,15 @@ func (dr *dirRepo) IndexInsert(desc types.Descriptor, opts ...types.IndexOpt) er
 	dr.mu.Lock()
 	defer dr.mu.Unlock()
 	_ = dr.indexLoad(false, true)
+	prev := dr.index.Copy()
 	dr.index.AddDesc(desc, opts...)
 	dr.log.Debug("index entry added", "repo", dr.name, "desc", desc)
-	return dr.indexSave(true)
+	err := dr.indexSave(true)
+	if err != nil {
+		// index.json was not replaced, the index in memory must not run ahead of it
+		dr.index = prev
+	}
+	return err
 }
 
 // IndexRemove removes an entry from the index and writes the change to index.json.
@@ -325,9 +331,15 @@ func (dr *dirRepo) IndexRemove(desc types.Descriptor) error {
 	dr.mu.Lock()
 	defer dr.mu.Unlock()
 	_ = dr.indexLoad(false, true)
+	prev := dr.index.Copy()
 	dr.index.RmDesc(desc)
 	dr.log.Debug("index entry removed", "repo", dr.name, "desc", desc)
-	return dr.indexSave(true)
+	err := dr.indexSave(true)
+	if err != nil {
+		// index.json was not replaced, the index in memory must not run ahead of it
+		dr.index = prev
+	}
+	return err
 }
 
 // BlobGet returns a reader to an entry from the CAS.
